@@ -69,7 +69,14 @@ fn builder_case(c: &Value, rt: &tokio::runtime::Runtime) -> (Value, Vec<String>)
     let (Some(named), Some(decoy)) = (named, decoy) else {
         return (json!({"builder": "no listener"}), vec!["could not open loopback listeners".into()]);
     };
-    let url = url_of(c["urls"].as_str().unwrap(), named.port);
+    // "mixed_gb" / "mixed_bg": a list of seed nodes with a well-formed and a malformed URL (cluster, sentinel)
+    let kind = c["urls"].as_str().unwrap();
+    let url_list: Option<Vec<String>> = match kind {
+        "mixed_gb" => Some(vec![url_of("valid", named.port).unwrap(), url_of("badscheme", named.port).unwrap()]),
+        "mixed_bg" => Some(vec![url_of("badport", named.port).unwrap(), url_of("valid", named.port).unwrap()]),
+        k => url_of(k, named.port).map(|u| vec![u]),
+    };
+    let url = url_list.as_ref().and_then(|l| l.first().cloned());
     let conn = conn_of(c["conn"].as_str().unwrap(), named.port);
     let want_servers = e["servers"].as_str().unwrap();
     let default_spy = if want_servers == "default" { spy(Some(6379)) } else { None };
@@ -91,13 +98,13 @@ fn builder_case(c: &Value, rt: &tokio::runtime::Runtime) -> (Value, Vec<String>)
         match flavour {
             "plain" => attempt!(deadpool_redis::Config { url: url.clone(), connection: conn.clone(), pool: None }),
             "cluster" => attempt!(deadpool_redis::cluster::Config {
-                urls: url.clone().map(|u| vec![u]),
+                urls: url_list.clone(),
                 connections: conn.clone().map(|c| vec![c]),
                 pool: None,
                 read_from_replicas: false
             }),
             _ => attempt!(deadpool_redis::sentinel::Config {
-                urls: url.clone().map(|u| vec![u]),
+                urls: url_list.clone(),
                 connections: conn.clone().map(|c| vec![c]),
                 server_type: Default::default(),
                 master_name: "mymaster".into(),
